@@ -63,6 +63,11 @@ func (ii *ImageItem) getImage() *data.MarkupImage {
 		imageURL = ii.getStringProperty(URLProp)
 	}
 
+	// An image without an address is no image (like the "image" property of an article).
+	if imageURL == "" {
+		return nil
+	}
+
 	return &data.MarkupImage{
 		URL:     imageURL,
 		Type:    ii.getStringProperty(EncodingFormatProp),
